@@ -3,7 +3,39 @@ SPEC = dict(
     props_file="Props/C14.v",
     harness=[dict(pkg="pruner", test="TestVerifC14", timeout=600, timeout_thorough=2400)],
     allowed_axioms=[],
-    level_text="",
-    rule="",
-    trusted_base=[],
+    level_text=("Machine-checked theorems (Coq, no axioms) over an executable model of the pruner: findPruneableHeaders (estimate from the "
+                "configured block time, extension loop, cut), the prune cycle (lastPruned, retryFailed, batch loop with maxHeadersPerLoop, "
+                "checkpoint update in memory and on disk), on-delete hook, restart, crash and reset - for EVERY header chain (any times), "
+                "window, block time, batch limit >= 2, failure pattern and event history: nothing newer than head time - window is handed "
+                "to Prune by a cycle or a retry (a block exactly one window old counts as outside); the checkpoint never moves backwards "
+                "except by the explicit reset and a graceful restart is transparent; every cycle terminates (refuted for the code before "
+                "fix-c14-1: a fully failing full batch spins forever); after a cycle every block after the starting point older than the "
+                "cutoff by more than one block time is pruned or in the failed set, and failed heights are retried by every cycle. "
+                "The model is re-validated on every run against the real pruner.Service (Start/prune/pruneOnHeaderDelete/"
+                "ResetCheckpoint/Stop, real checkpoint persistence) on ~2400 generated histories. Partial: the on-delete hook prunes "
+                "whatever the header store deletes (its safety is the store's obligation); the global completeness theorem covers "
+                "histories without header deletion (the per-cycle theorem covers any state); the archival/pruned store effect of "
+                "Pruner.Prune itself (RemoveQ4 vs RemoveODSQ4) is not part of this model (store properties C05/C07)."),
+    rule=("one case = one history on the real Service: header chain of 1..50 heights (tail 1, small or large) with regular, faster, slower or "
+          "irregular block times (equal timestamps, gaps; 10% non-monotone), window placed so the cutoff falls inside the chain (+-1, +-block "
+          "time) or covering nothing / everything / zero, batch limit 2..8 (5%: 512), failure script per height and attempt (none, transient, "
+          "k times, permanent, runs of consecutive failing heights at least a batch long, everything fails, everything fails then heals), "
+          "3..13 events of cycle / head advance / on-delete hook (tail or arbitrary height, optionally with a cycle running inside its Prune "
+          "call) / tail removal / graceful restart / crash / reset. Observed after every event: heights handed to Prune with outcome (retry "
+          "block compared as a set, batches in order), in-memory and persisted checkpoint (height, failed set). Non-trivial = at least one "
+          "Prune call and (a failure or a restart/crash); distinct = distinct Coq case term."),
+    trusted_base=[
+        "model Pruner/Find.v, Pruner/Cycle.v hand-written after pruner/find.go, pruner/service.go, pruner/checkpoint.go (with fix-c14-1); tied by "
+        "harness/pruner/zz_verif_c14_test.go, which drives the real pruner.Service and whose observations are re-computed by the model inside Coq "
+        "(vm_compute) on every run",
+        "the harness mocks: header store (consecutive heights, Head/Tail/GetByHeight/GetRangeByHeight with go-header semantics, OnDelete keeps "
+        "the newest handler), Pruner (scripted outcome per height and attempt), datastore = in-memory MapDatastore; prune() is invoked "
+        "synchronously, the cycle run by Start's goroutine is awaited on events (Tail call + mutex), not on time",
+        "time is modelled as integers (ns offsets); Go's time.Duration saturation and uint64 wrap-around are not modelled (the harness keeps all "
+        "times within +-10^13 ns and the checkpoint inside the store)",
+        "context cancellation inside a cycle, datastore write errors, and metrics are not modelled; Prune's effect on the EDS store "
+        "(full/light availability) is outside this model",
+        "go-header's store deletion protocol (sequential or parallel on-delete calls) is environment: hook calls for arbitrary heights are "
+        "covered by the correspondence and the safety/monotonicity theorems, completeness is stated for histories without deletion",
+    ],
 )
